@@ -21,6 +21,8 @@ enum Re {
     Plus(Box<Re>),
     Opt(Box<Re>),
     Rep(usize, usize, Box<Re>),
+    /// precedence inside a token: `choice(prec(p1, r1), prec(p2, r2), …)` (only at the top of a token)
+    Alts(Vec<(i32, Re)>),
 }
 
 fn esc(c: u32) -> String {
@@ -38,6 +40,7 @@ impl Re {
             Re::Star(_) | Re::Opt(_) => true,
             Re::Plus(a) => a.nullable(),
             Re::Rep(m, _, a) => *m == 0 || a.nullable(),
+            Re::Alts(v) => v.iter().any(|(_, r)| r.nullable()),
         }
     }
     fn atom(&self) -> String {
@@ -65,6 +68,7 @@ impl Re {
             Re::Plus(a) => format!("{}+", a.atom()),
             Re::Opt(a) => format!("{}?", a.atom()),
             Re::Rep(m, n, a) => format!("{}{{{m},{n}}}", a.atom()),
+            Re::Alts(v) => v.iter().map(|(_, r)| r.pattern()).collect::<Vec<_>>().join("|"),
         }
     }
     fn seq_part(&self) -> String {
@@ -80,6 +84,7 @@ impl Re {
             Re::Plus(a) => format!("P({})", a.ser()),
             Re::Opt(a) => format!("O({})", a.ser()),
             Re::Rep(m, n, a) => format!("R{m}.{n}({})", a.ser()),
+            Re::Alts(v) => format!("Z({})", v.iter().map(|(p, r)| format!("{p}~{}", r.ser())).collect::<Vec<_>>().join("/")),
         }
     }
 }
@@ -127,6 +132,21 @@ fn parse_re(s: &[u8], i: &mut usize) -> Re {
             let a = parse_re(s, i);
             *i += 1;
             match c { b'K' => Re::Star(Box::new(a)), b'P' => Re::Plus(Box::new(a)), _ => Re::Opt(Box::new(a)) }
+        }
+        b'Z' => {
+            *i += 1;
+            let mut v = Vec::new();
+            loop {
+                let st = *i;
+                while s[*i] != b'~' { *i += 1; }
+                let p: i32 = std::str::from_utf8(&s[st..*i]).unwrap().parse().unwrap();
+                *i += 1;
+                let r = parse_re(s, i);
+                v.push((p, r));
+                if s[*i] == b'/' { *i += 1; } else { break; }
+            }
+            *i += 1;
+            Re::Alts(v)
         }
         b'R' => {
             let m = num(s, i, 10) as usize;
@@ -184,6 +204,8 @@ impl TokSet {
             let inner = if t.is_string {
                 let Re::Lit(v) = &t.re else { panic!() };
                 json!({"type":"STRING","value": v.iter().map(|c| char::from_u32(*c).unwrap()).collect::<String>()})
+            } else if let Re::Alts(v) = &t.re {
+                json!({"type":"CHOICE","members": v.iter().map(|(p, r)| json!({"type":"PREC","value":p,"content":{"type":"PATTERN","value":r.pattern()}})).collect::<Vec<_>>()})
             } else {
                 json!({"type":"PATTERN","value": t.re.pattern()})
             };
@@ -337,6 +359,22 @@ fn rand_set(rng: &mut Rng) -> TokSet {
             toks.insert(at, Tok { prec: if prec_mode == 0 { 0 } else { *rng.pick(&[0, 0, 1]) }, is_string: false, re, immediate: false });
         }
     }
+    // precedence INSIDE a token: token(prec(p0, choice(prec(p1, r1), prec(p2, r2), …)))
+    if !with_word && rng.chance(1, 4) {
+        for _ in 0..rng.range(1, 2) {
+            let mut alts: Vec<(i32, Re)> = Vec::new();
+            for _ in 0..rng.range(2, 3) {
+                let r = if rng.chance(1, 2) { Re::Lit((0..rng.range(1, 3)).map(|_| pick_sym(rng, &focus)).collect()) } else { rand_re(rng, 2, &focus) };
+                if r.nullable() || matches!(r, Re::Alts(_)) { continue; }
+                alts.push((*rng.pick(&[-1, 0, 0, 1, 2]), r));
+            }
+            if alts.len() < 2 { continue; }
+            let re = Re::Alts(alts);
+            if toks.iter().any(|t| t.re.ser() == re.ser()) { continue; }
+            let at = rng.below(toks.len() + 1);
+            toks.insert(at, Tok { prec: *rng.pick(&[0, 0, 1]), is_string: false, re, immediate: false });
+        }
+    }
     // immediate tokens (`token.immediate`): recognised only when no extras precede them
     if !with_word && rng.chance(1, 3) {
         for _ in 0..rng.range(1, 3) { let i = rng.below(toks.len()); toks[i].immediate = true; }
@@ -466,12 +504,14 @@ fn keyword_sets(parser_c: &str, ts: &TokSet) -> (Vec<usize>, Vec<usize>) {
 // construction per token set, lex-state merging and minimisation.
 
 #[derive(Clone, Debug)]
-struct ModeSet { extras: usize, follow: Option<(usize, usize)>, toks: Vec<Tok>, masks: Vec<u8> }
+struct ModeSet { extras: usize, follow: Option<(usize, usize)>, word: Option<usize>, reserved: Vec<usize>, toks: Vec<Tok>, masks: Vec<u8> }
 
 impl ModeSet {
     fn marks(&self) -> (usize, usize) { (self.toks.len() - 2, self.toks.len() - 1) }
     fn ser(&self) -> String {
-        let mut s = format!("mx{}f{}", self.extras, self.follow.map(|(a, b)| format!("{a}.{b}")).unwrap_or("-".into()));
+        let mut s = format!("mx{}f{}w{}r{}", self.extras, self.follow.map(|(a, b)| format!("{a}.{b}")).unwrap_or("-".into()),
+            self.word.map(|w| w.to_string()).unwrap_or("-".into()),
+            if self.reserved.is_empty() { "-".to_string() } else { self.reserved.iter().map(|k| k.to_string()).collect::<Vec<_>>().join(".") });
         for (t, m) in self.toks.iter().zip(&self.masks) { s.push_str(&format!(";{},{},{},{}", t.prec, t.is_string as u8, m, t.re.ser())); }
         s
     }
@@ -479,8 +519,12 @@ impl ModeSet {
         let mut parts = s.split(';');
         let h = parts.next().unwrap();
         let fi = h.find('f').unwrap();
+        let wi = h.find('w').unwrap_or(h.len());
+        let ri = h.find('r').unwrap_or(h.len());
         let extras = h[2..fi].parse().unwrap_or(0);
-        let follow = { let f = &h[fi + 1..]; if f == "-" { None } else { let mut it = f.split('.'); Some((it.next().unwrap().parse().unwrap(), it.next().unwrap().parse().unwrap())) } };
+        let follow = { let f = &h[fi + 1..wi]; if f == "-" { None } else { let mut it = f.split('.'); Some((it.next().unwrap().parse().unwrap(), it.next().unwrap().parse().unwrap())) } };
+        let word: Option<usize> = if wi < h.len() { h[wi + 1..ri].parse().ok() } else { None };
+        let reserved: Vec<usize> = if ri < h.len() { h[ri + 1..].split('.').filter_map(|x| x.parse().ok()).collect() } else { vec![] };
         let mut toks = Vec::new();
         let mut masks = Vec::new();
         for p in parts {
@@ -491,7 +535,7 @@ impl ModeSet {
             let mut i = 0;
             toks.push(Tok { prec, is_string, re: parse_re(f.next().unwrap().as_bytes(), &mut i), immediate: false });
         }
-        ModeSet { extras, follow, toks, masks }
+        ModeSet { extras, follow, word, reserved, toks, masks }
     }
     fn grammar(&self, name: &str) -> String {
         let sym = |i: usize| json!({"type":"SYMBOL","name":format!("t{i}")});
@@ -516,6 +560,10 @@ impl ModeSet {
         ordered.insert("source".into(), rules["source"].clone());
         for (k, v) in rules { if k != "source" { ordered.insert(k, v); } }
         g2["rules"] = Value::Object(ordered);
+        if let Some(w) = self.word { g2["word"] = json!(format!("t{w}")); }
+        if !self.reserved.is_empty() {
+            g2["reserved"] = json!({"global": self.reserved.iter().map(|k| json!({"type":"SYMBOL","name":format!("t{k}")})).collect::<Vec<_>>()});
+        }
         serde_json::to_string(&g2).unwrap()
     }
 }
@@ -538,12 +586,14 @@ fn sample_re(re: &Re, rng: &mut Rng, out: &mut Vec<u32>) {
         Re::Plus(a) => for _ in 0..rng.range(1, 3) { sample_re(a, rng, out) },
         Re::Opt(a) => if rng.chance(1, 2) { sample_re(a, rng, out) },
         Re::Rep(m, n, a) => for _ in 0..rng.range(*m, *n) { sample_re(a, rng, out) },
+        Re::Alts(v) => { let k = rng.below(v.len()); sample_re(&v[k].1, rng, out) }
     }
 }
 
 fn rand_mode_set(rng: &mut Rng) -> ModeSet {
     let base = loop { let b = rand_set(rng); if b.word.is_none() { break b; } };
-    let mut toks: Vec<Tok> = base.toks.into_iter().filter(|t| match &t.re { Re::Lit(v) => !(v.len() == 1 && (v[0] == 0x28 || v[0] == 0x29)), _ => true }).collect();
+    let mut toks: Vec<Tok> = base.toks.into_iter().filter(|t| match &t.re { Re::Lit(v) => !(v.len() == 1 && (v[0] == 0x28 || v[0] == 0x29)), Re::Alts(_) => false, _ => true }).collect();
+    if toks.len() < 2 { toks.push(Tok { prec: 0, is_string: true, re: Re::Lit(vec![0x61]), immediate: false }); toks.push(Tok { prec: 0, is_string: true, re: Re::Lit(vec![0x62]), immediate: false }); }
     if toks.len() > 10 { toks.truncate(10); }
     for t in toks.iter_mut() { t.immediate = false; }
     let n = toks.len();
@@ -565,11 +615,30 @@ fn rand_mode_set(rng: &mut Rng) -> ModeSet {
             }
         }
     }
+    // word token + keywords whose validity differs from the word token's, optionally reserved words
+    let mut word = None;
+    let mut reserved = Vec::new();
+    if rng.chance(1, 2) {
+        let wre = Re::Seq(Box::new(Re::Cls(false, vec![(0x61, 0x64), (0xe9, 0xe9), (0x3bb, 0x3bb)])),
+                          Box::new(Re::Star(Box::new(Re::Cls(false, vec![(0x61, 0x64), (0x30, 0x31), (0xe9, 0xe9), (0x3bb, 0x3bb)])))));
+        let mut kw_idx = Vec::new();
+        for _ in 0..rng.range(2, 3) {
+            let v: Vec<u32> = (0..rng.range(1, 3)).map(|_| *rng.pick(&LETTERS)).collect();
+            if toks.iter().any(|t| matches!(&t.re, Re::Lit(x) if *x == v)) { continue; }
+            kw_idx.push(toks.len());
+            toks.push(Tok { prec: 0, is_string: true, re: Re::Lit(v), immediate: false });
+            masks.push(*rng.pick(&[1u8, 2, 3]));
+        }
+        word = Some(toks.len());
+        toks.push(Tok { prec: 0, is_string: false, re: wre, immediate: false });
+        masks.push(*rng.pick(&[1u8, 2, 3, 3]));
+        if rng.chance(1, 2) { for k in kw_idx { if rng.chance(2, 3) { reserved.push(k); } } }
+    }
     toks.push(Tok { prec: 0, is_string: true, re: Re::Lit(vec![0x28]), immediate: false });
     toks.push(Tok { prec: 0, is_string: true, re: Re::Lit(vec![0x29]), immediate: false });
     masks.push(3);
     masks.push(3);
-    ModeSet { extras: base.extras, follow, toks, masks }
+    ModeSet { extras: base.extras, follow, word, reserved, toks, masks }
 }
 
 /// Every lexing step of the real parser, from the parse log: `tok:pos:end:state` where `pos` is the
@@ -633,6 +702,11 @@ fn run_mode_set(out: &mut impl Write, id: &str, ms: &ModeSet, strings: &mut dyn 
     let mut parser = Parser::new();
     parser.set_language(&b.language).map_err(|e| e.to_string())?;
     writeln!(out, "mset {id} {}", ms.ser()).unwrap();
+    let as_soup = TokSet { word: ms.word, extras: ms.extras, toks: ms.toks.clone() };
+    let (kws, ambig) = keyword_sets(&b.parser_c, &as_soup);
+    let join = |v: &Vec<usize>| if v.is_empty() { "-".to_string() } else { v.iter().map(|k| k.to_string()).collect::<Vec<_>>().join(",") };
+    writeln!(out, "mkw {}", join(&kws)).unwrap();
+    writeln!(out, "mambig {}", join(&ambig)).unwrap();
     // valid token set of every parse state, from the real look-ahead iterator (= the parse table rows)
     let l = &b.language;
     for st in 0..l.parse_state_count() {
@@ -674,7 +748,7 @@ fn mode_strings(ms: &ModeSet, rng: &mut Rng, n_random: usize, enum_len: usize, f
             let items: Vec<usize> = (0..ms.toks.len() - 2).filter(|i| ms.masks[*i] & (1 << mode) != 0).collect();
             for _ in 0..rng.below(5) {
                 if rng.chance(1, 2) { s.push(0x20); }
-                let i = *rng.pick(&items);
+                let i = if rng.chance(1, 8) { rng.below(ms.toks.len() - 2) } else { *rng.pick(&items) };
                 sample_re(&ms.toks[i].re, rng, &mut s);
                 if let Some((x, y)) = ms.follow { if x == i && rng.chance(1, 2) { if rng.chance(1, 2) { s.push(0x20); } sample_re(&ms.toks[y].re, rng, &mut s); } }
             }
@@ -756,6 +830,7 @@ fn rand_large_class_set(rng: &mut Rng) -> (TokSet, Vec<u32>) {
             Re::Seq(a, b) | Re::Alt(a, b) => { bounds(a, out); bounds(b, out); }
             Re::Star(a) | Re::Plus(a) | Re::Opt(a) | Re::Rep(_, _, a) => bounds(a, out),
             Re::Lit(_) => {}
+            Re::Alts(v) => for (_, r) in v { bounds(r, out); },
         }
     }
     for t in &toks { bounds(&t.re, &mut alpha); }
